@@ -16,7 +16,7 @@
    {"op":"run","d":n,"fuel":m}                     core.run() until now + n
    {"op":"jump","fuel":m}                          core.run() until the armed deadline
    fn = {"id":n,"r":bool,"k":[fn…],"a":[act…]}     ("a" optional; tasks may carry "a" too)
-   act = ["at",tid,t] | ["after",tid,d] | ["suspend",tid] | ["stop"]
+   act = ["at",tid,t] | ["after",tid,d] | ["suspend",tid] | ["stop"] | ["pump"] | ["pump",fuel]
    any request but reset may carry "from":k (restore snapshot k before the
    operation) and "to":k (save the state after the operation as snapshot k)
    All times in requests are ticks; all times in replies are µs (rounded to
@@ -25,6 +25,9 @@
 import BacVerif.Drv.Common
 import BacVerif.Model.Task
 open Lean BacVerif.Drv BacVerif.Task
+
+/-- nested `run_once()` calls are modelled four levels deep -/
+instance : Pump := ⟨pumpAt 4⟩
 
 structure St where
   w : World := {}
@@ -40,6 +43,7 @@ def actOfJson (j : Json) : R Act := do
   | "after" => pure (Act.installAfter (← (a[1]?.getD Json.null).getNat?) (← (a[2]?.getD Json.null).getNat?))
   | "suspend" => pure (Act.suspend (← (a[1]?.getD Json.null).getNat?))
   | "stop" => pure Act.stop
+  | "pump" => pure (Act.pump ((a[1]?.getD Json.null).getNat?.toOption.getD 200))
   | o => throw s!"unknown act {o}"
 
 /-- optional field "a": list of acts -/
@@ -64,6 +68,7 @@ def jEv (tpu : Nat) : Ev → Json
   | .act (.installAfter tid d) now due => Json.arr #["act", "after", Json.num tid, Json.num (us tpu d), Json.num (us tpu now), jNatOpt (due.map (us tpu))]
   | .act (.suspend tid) now _ => Json.arr #["act", "suspend", Json.num tid, Json.num (us tpu now)]
   | .act .stop now _ => Json.arr #["act", "stop", Json.num (us tpu now)]
+  | .act (.pump _) now _ => Json.arr #["act", "pump", Json.num (us tpu now)]
 
 /-- entries sorted by (time, seq): repeated popMin -/
 def sortedEntries : Nat → List Entry → List Entry
